@@ -188,3 +188,49 @@ def check_select(rep, cfg):
                "conditional_select(a, b, choice) must select every coordinate k as ITE(choice, b.k, a.k); %s" % ("; ".join(bad) if bad else Tm.show(v, maxdepth=3)),
                where=cfg.where(path), sample={"obligation": "SELECT/%s/%s" % (cfg.name, norm_path(path)), "coordinates": list(v.args[1]) if ok else []})
     return n
+
+
+IDENTITY_FORMS = {
+    # (trait def, method) -> what the form must denote; all are "the same element in another representation"
+    ("ark_ec::CurveGroup", "into_affine"): "self",
+    ("ark_ec::AffineRepr", "clear_cofactor"): "self",            # the declared cofactor is 1: clearing it is the identity map
+    ("ark_ec::AffineRepr", "mul_by_cofactor_to_group"): "self",
+    ("ark_ec::AffineRepr", "into_group"): "self",
+    ("ark_ec::AffineRepr", "mul_by_cofactor"): "self",
+    ("ark_ec::AffineRepr", "generator"): "generator",
+    ("ark_ec::Group", "generator"): "generator",
+}
+
+
+def check_identity_forms(rep, cfg, prop):
+    """conversions / cofactor forms of the arkworks traits: each must denote its own operand (or the generator constant)"""
+    from . import consts as K
+    zeta_c = cfg.prog.consts.get("ark_curve::constants::ZETA")
+    gen = K.decaf_decode_int(K.ENC_GENERATOR, K.felt(zeta_c["value"]["val"], "fq")[1]) if zeta_c else None
+    n = 0
+    for path, b in sorted(cfg.prog.bodies.items()):
+        tr = b.get("impl_trait_def")
+        name = path.split("::")[-1]
+        what = IDENTITY_FORMS.get((tr, name))
+        if what is None or sort_of(b.get("impl_self", ""))[0] not in POINT_SORTS:
+            continue
+        n += 1
+        out = cfg.run(path)
+        got = den(out.value)
+        key = "FWD/%s/%s" % (cfg.name, norm_path(path))
+        if what == "self":
+            want = operand_terms(b)[0]
+            ok = got is want and not out.unmodelled
+            rep.ob(key, ok, "%s::%s must denote its own operand (a change of representation only); got %s" % (tr, name, Tm.show(got, maxdepth=5)), where=cfg.where(path))
+        else:
+            ok = False
+            why = Tm.show(got, maxdepth=4)
+            if got.op == "struct" and got.args[0] == "TEProj":
+                co = dict(zip(got.args[1], got.args[2:]))
+                if all(isinstance(v, Tm.T) and v.op == "felem" for v in co.values()) and co["z"].args[1] != 0 and gen is not None:
+                    zi = pow(co["z"].args[1], -1, K.Q)
+                    x, y = co["x"].args[1] * zi % K.Q, co["y"].args[1] * zi % K.Q
+                    ok = (x, y) == gen and co["t"].args[1] * co["z"].args[1] % K.Q == co["x"].args[1] * co["y"].args[1] % K.Q
+                    why = "affine (%#x.., %#x..) vs decode(8)" % (x >> 200, y >> 200)
+            rep.ob(key, ok and not out.unmodelled, "%s::%s must return the generator constant decode(8): %s" % (tr, name, why), where=cfg.where(path))
+    return n
